@@ -261,7 +261,7 @@ theorem predEntries_facts (h : Hyp g S) :
 
 theorem predecessors_eq_treeOf (g : WGraph) (S : List Nat) :
     predecessors g S = treeOf g.n (entries g some S) := by
-  simp [predecessors, treeOf, dijkstraPred]
+  simp [predecessors, predecessorsOf, treeOf, dijkstraPred]
 
 theorem shortestPath_eq (g : WGraph) (S : List Nat) (isT : Nat → Bool) :
     shortestPath g S isT =
